@@ -57,6 +57,16 @@ def make_report(rng, family=None):
         if rng.random() < 0.5:
             parts.reverse()
             tk.reverse()
+        if rng.random() < 0.5:
+            # the other fields a Grbl status report carries now and then (added after seed C18j: the work coordinate offset
+            # subtracted from the machine position just read): none of them is a reading of X/Y/Z, F or S
+            wco = [val(rng) for _ in range(3)]
+            extra = [("WCO:%s" % ",".join(fmt(v, rng) for v in wco), {"key": "WCO", "vals": wco}),
+                     ("Ov:100,100,%d" % rng.choice([50, 100, 120]), {"key": "Ov", "vals": [100000, 100000, 100000]}),
+                     ("Bf:15,128", {"key": "Bf", "vals": [15000, 128000]}), ("Ln:%d" % rng.randint(1, 999), {"key": "Ln", "vals": [1000]})]
+            for txt, tok in rng.sample(extra, rng.randint(1, 3)):
+                parts.append(txt)
+                tk.append(tok)
         text = "<%s|%s>" % (rng.choice(["Idle", "Run", "Hold", "Alarm", "Door:1", "Check", "Home", "Jog", "Sleep", "Error"]), "|".join(parts))
         toks, grbl = tk, True
     else:
